@@ -58,7 +58,7 @@ func (u *udpHandler) handleUDPAddr(udpAddr *net.UDPAddr, pkg []byte) {
 			TLOG.Error("Failed to GetPacketTypeFromContext")
 		}
 
-		if cPacketType == basef.TARSONEWAY {
+		if cPacketType == basef.TARSONEWAY || len(rsp) == 0 {
 			return
 		}
 
